@@ -27,7 +27,8 @@ type op struct {
 	Node   int    `json:"node"`
 	Ref    string `json:"ref,omitempty"`
 	AutoGC bool   `json:"autogc,omitempty"`
-	Path   string `json:"path,omitempty"` // stray: path below blobs/
+	Via    bool   `json:"via_resolve,omitempty"` // tag: with the descriptor Resolve(<digest>) returns (octet-stream for plain blobs)
+	Path   string `json:"path,omitempty"`        // stray: path below blobs/
 }
 
 func (o op) String() string {
@@ -35,6 +36,9 @@ func (o op) String() string {
 	case "push":
 		return fmt.Sprintf("p%d", o.Node)
 	case "tag":
+		if o.Via {
+			return fmt.Sprintf("tr%d=%s", o.Node, o.Ref)
+		}
 		return fmt.Sprintf("t%d=%s", o.Node, o.Ref)
 	case "untag":
 		return "u" + o.Ref
@@ -331,7 +335,7 @@ func (e *env) diffModel(o *obs) []string {
 		}
 	}
 	for ref, n := range e.m.tags {
-		if got := o.tags[ref]; got != gen.Key(e.g.Nodes[n].Desc) {
+		if got := o.tags[ref]; got != e.wantTag(ref, n) {
 			d = append(d, fmt.Sprintf("tag %q: resolves to %q, model says node %d", ref, got, n))
 		}
 	}
@@ -363,11 +367,22 @@ func (e *env) apply(o op, judge bool) {
 		}
 		e.m.stored[o.Node] = true
 	case "tag":
-		if err := e.st.Tag(ctx, e.g.Nodes[o.Node].Desc, o.Ref); err != nil {
+		td := e.g.Nodes[o.Node].Desc
+		if o.Via {
+			if d, err := e.st.Resolve(ctx, td.Digest.String()); err == nil {
+				td = d
+				e.res.Count("tags_with_resolved_descriptor", 1)
+				if d.MediaType != e.g.Nodes[o.Node].Desc.MediaType {
+					e.res.Count("tags_with_resolved_descriptor_other_media_type", 1)
+				}
+			}
+		}
+		if err := e.st.Tag(ctx, td, o.Ref); err != nil {
 			e.violate("setup-op-failed", fmt.Sprintf("Tag(node %d, %q): %v", o.Node, o.Ref, err), nil)
 			return
 		}
 		e.m.tags[o.Ref] = o.Node
+		e.m.tagKey[o.Ref] = gen.Key(gen.Plain(td))
 		e.m.everTagged[o.Node] = true
 	case "untag":
 		if err := e.st.Untag(ctx, o.Ref); err != nil {
@@ -390,6 +405,14 @@ func (e *env) apply(o op, judge bool) {
 	case "gcfail":
 		e.doGCFail(o, judge)
 	}
+}
+
+// wantTag is what a reference must resolve to: the descriptor it was tagged with.
+func (e *env) wantTag(ref string, n int) string {
+	if k, ok := e.m.tagKey[ref]; ok {
+		return k
+	}
+	return gen.Key(e.g.Nodes[n].Desc)
 }
 
 func (e *env) violate(key, what string, extra map[string]any) {
@@ -560,6 +583,8 @@ func (e *env) doDelete(o op, judge bool) {
 			switch {
 			case n == t:
 				offer(0, "delete-target-still-present", fmt.Sprintf("Delete(%s) returned nil but the content is still present", e.nodeName(t)))
+			case e.m.keyLost[n]:
+				offer(1, "delete-leaves-garbage:tagged-under-other-media-type-at-gc", what+" (at the last GC it was kept only by a tag placed with the descriptor Resolve(<digest>) returns, whose media type differs from the one its parents use: the rebuilt graph knows it under that media type only)")
 			case e.m.everTagged[n]:
 				offer(1, "stale-tag-set", what+" (it carried a tag earlier in the history; the tag was moved or removed since)")
 			default:
@@ -599,7 +624,7 @@ func (e *env) doDelete(o op, judge bool) {
 			}
 			continue
 		}
-		if got != gen.Key(e.g.Nodes[n].Desc) {
+		if got != e.wantTag(ref, n) {
 			e.violate("delete-removes-other-tag", fmt.Sprintf("Delete(%s): tag %q of surviving node %s now gives %q", e.nodeName(t), ref, e.nodeName(n), got), extra)
 			return
 		}
@@ -667,9 +692,38 @@ func (e *env) doDelete(o op, judge bool) {
 	}
 }
 
+// markKeyLost runs after a successful GC. GC rebuilds the in-memory graph from
+// the tagged descriptors; a node that is kept only because of a tag placed
+// with a descriptor of another media type (Resolve(<digest>) of a plain blob)
+// is then known to the graph under that media type only. The mark is used for
+// naming a violation, never for a verdict.
+func (e *env) markKeyLost() {
+	e.m.keyLost = map[int]bool{}
+	for ref, n := range e.m.tags {
+		if !e.m.stored[n] || e.m.tagKey[ref] == "" || e.m.tagKey[ref] == gen.Key(e.g.Nodes[n].Desc) {
+			continue
+		}
+		kept := false
+		for _, p := range e.m.storedPreds(n) {
+			if e.m.stored[p] {
+				kept = true
+			}
+		}
+		for r2, n2 := range e.m.tags {
+			if n2 == n && e.m.tagKey[r2] == gen.Key(e.g.Nodes[n].Desc) {
+				kept = true
+			}
+		}
+		if !kept {
+			e.m.keyLost[n] = true
+		}
+	}
+}
+
 // dropNode removes a node and the tags pointing at it from the model.
 func (e *env) dropNode(n int) {
 	e.m.stored[n] = false
+	delete(e.m.keyLost, n)
 	for ref, t := range e.m.tags {
 		if t == n {
 			delete(e.m.tags, ref)
@@ -813,7 +867,7 @@ func (e *env) doGCFail(o op, judge bool) {
 		}
 	}
 	for ref, n := range e.m.tags {
-		if got := a.tags[ref]; got != gen.Key(e.g.Nodes[n].Desc) {
+		if got := a.tags[ref]; got != e.wantTag(ref, n) {
 			e.violate("gc-tags-changed", fmt.Sprintf("failing GC (%v): tag %q of node %s now gives %q", err, ref, e.nodeName(n), got), extra)
 			return
 		}
@@ -876,6 +930,9 @@ func (e *env) doGC(judge bool) {
 			if ok {
 				e.gcSeen[n] = true
 			}
+		}
+		if err == nil {
+			e.markKeyLost()
 		}
 	}()
 	if !judge {
@@ -991,7 +1048,7 @@ func (e *env) doGC(judge bool) {
 	}
 	// tags: all intact (a tagged node is reachable by definition)
 	for ref, n := range e.m.tags {
-		if got := a.tags[ref]; got != gen.Key(e.g.Nodes[n].Desc) {
+		if got := a.tags[ref]; got != e.wantTag(ref, n) {
 			e.violate("gc-tags-changed", fmt.Sprintf("GC: tag %q of node %s now gives %q", ref, e.nodeName(n), got), extra)
 			return
 		}
